@@ -1,7 +1,7 @@
 SPECIFICATION TraceSpec
 CONSTANTS
   Procs = {1, 2, 3}
-  MaxRev = 14
+  MaxRev = 34
   MaxOps = 1000
   MaxFaults = 1000
   MaxCrash = 1000
